@@ -22,11 +22,15 @@ TRUSTED = ["hand-written Gallina model coq/Model/Ecdsa.v of src/ecdsa/{sign,veri
            "and for recovery: lift_x (xcoord P) (yodd P) = Some P and yodd (pneg P) = negb (yodd P) for valid P <> None, "
            "smul a G = None -> a mod n = 0",
            "execution runs the BigZ instance (Uint63 primitives); Proofs/Secp256k1Refine.v proves it equal to the Z instance"]
-ASSUMPTIONS = ["'fails to verify for a different message, hash choice or key' is only sampled (it needs collision resistance of SHA-256); "
-               "the proved part is: a second message scalar z' accepted for the same (r, s) and key forces z' = z (mod n) (C05_verify_other_z)",
-               "the OS entropy of sign_with_random_k is an explicit argument of the model; the run compares behaviour "
-               "(verifies, low-S, in range, recovers) for one model entropy per case",
-               "rfc6979 retry loop: the model gives up after 16 candidates (probability 2^-2048)"]
+ASSUMPTIONS = ["'fails to verify for a different message, hash choice or key' is only sampled (it needs collision resistance of SHA-256 "
+               "and the discrete-log structure of the group): ops ecdsa.sign_verify with another key / message / hash / negated key, and "
+               "mutated (r, s, message, key) in the raw verify ops; the related proved fact is C06_recover_other_z (recovery with "
+               "z' <> z mod n does not give the signer's key)",
+               "the 'verifies' and ECDH theorems are conditional on the explicit premise secp256k1_group (see trusted_base); low-S, "
+               "ranges and equality with RFC 6979 + ECDSA are unconditional",
+               "the OS entropy of sign_with_random_k is an explicit argument of the model (theorems hold for every value); the run "
+               "compares behaviour (verifies, low-S, in range, recovers) for one model entropy per case",
+               "rfc6979 retry loop: the model gives up after 16 candidates (probability 2^-2048); theorems are stated for successful runs"]
 
 N = S.N
 KEYS = [1, 2, 3, N - 1, N - 2, 2 ** 255, 2 ** 255 - 1, N // 2, N // 2 + 1]
